@@ -23,6 +23,7 @@ From TskVerif Require Import C01.SitesProofs.
 From TskVerif Require Import C01.MutEdgeProofs.
 From TskVerif Require Import C01.ReverseTop.
 From TskVerif Require Import C01.LevelProofs.
+From TskVerif Require Import C01.CoiterProofs.
 Import ListNotations.
 Open Scope Z_scope.
 
@@ -376,3 +377,16 @@ Proof. exact mutation_edge_exact_lemma. Qed.
 Theorem levelorder_depth_sorted : forall K starts out, BFS K starts out ->
   exists out2, BFS2 K (map (fun v => (v, 0)) starts) out2 /\ map fst out2 = out /\ nondecr (map snd out2).
 Proof. exact levelorder_depth_sorted_lemma. Qed.
+
+(* (coiterate) TreeSequence.coiterate on two breakpoint lists 0 :: b1 and 0 :: b2 that increase
+   strictly to L: it never fails or runs past the last tree, every yielded row
+   [left; right; k1; lo1; hi1; k2; lo2; hi2] has left < right and is covered by the yielded tree
+   of each side (lo <= left, right <= hi), the rows are consecutive from 0, and their right ends
+   are exactly the sorted union of b1 and b2 (so the intervals split [0, L) at the union of the
+   two breakpoint sets; breakpoints are compared with ==). *)
+Theorem coiterate_partition : forall L b1 b2,
+  incr_to L 0 b1 -> incr_to L 0 b2 ->
+  exists rows, coiterate L (0 :: b1) (0 :: b2) = Ok rows /\
+    Forall row_ok rows /\ consecutive 0 rows /\
+    map (fun row => nth 1 row 0) rows = umerge (S (S (length b1 + length b2))) b1 b2.
+Proof. exact coiterate_partition_lemma. Qed.
